@@ -127,7 +127,7 @@ from ethosu.vela import cascade_builder as cb  # noqa: E402
 STRIPE = TTuple(TInt(lo=1, hi=1), TInt(lo=1, hi=65536), TInt(lo=1, hi=65536), TInt(lo=1, hi=65536), cls=Shape4D)
 
 contract(
-    "ethosu.vela.cascade_builder:rolling_buffer_shape", props=["C10"],
+    "ethosu.vela.cascade_builder:rolling_buffer_shape", props=["C10", "C02"],   # C02: the buffer booked for a cascade holds what is written
     # ghosts: a = first row the consumer stripe still needs, r1 < r2 two rows among those c rows and the p rows written next
     types=dict(producer_stripe=STRIPE, consumer_stripe_input=STRIPE, a=TInt(lo=0), r1=PyInt, r2=PyInt),
     ensures=[
